@@ -380,6 +380,28 @@ def shapeOf (facts : List (String × String × Shape)) (recv method : String) : 
   | some f => f.2.2
   | none => .other
 
+/-! ### facts about `ring/buffered.go` (shape of what `factgen_c14` extracts) -/
+
+/-- thresholds, offsets and guards of `Buffered`, and every place that writes `b.end` -/
+structure BufferedFacts where
+  minInitial : Int          -- `if initialSize < C { initialSize = C }`
+  minBuffer : Int           -- `if bufferSize < C { bufferSize = C }`
+  endInit : Int             -- `end:` in the literal `NewBuffered` returns
+  growWhenEndGeLen : Bool   -- `if b.end >= b.ring.Len()`
+  growAt : Int              -- `b.ring.Move(b.end + growAt).Link(New(b.bsize))`
+  emptyGuard : Bool         -- `RemoveFront` starts with `if b.end == 0 { return nil }`
+  shrinkFactor : Int        -- `b.ring.Len()-b.end > b.bsize*shrinkFactor`
+  shrinkStrict : Bool       -- `>` (true) or `>=` (false)
+  shrinkAt : Int            -- `b.ring.Move(b.end + shrinkAt).Unlink(b.bsize)`
+  endWrites : List (String × String)   -- (function, how) for every write of the field `end`
+  deriving Repr, DecidableEq
+
+/-- what the proofs about `Buffered` are written for -/
+def expectedBuffered : BufferedFacts :=
+  { minInitial := 1, minBuffer := 1, endInit := 0, growWhenEndGeLen := true, growAt := -1,
+    emptyGuard := true, shrinkFactor := 2, shrinkStrict := true, shrinkAt := 0,
+    endWrites := [("NewBuffered", "init"), ("AppendBack", "inc"), ("RemoveFront", "dec")] }
+
 /-! ### executable linearizability checker
 
 Input: a complete history in real-time order; each invocation already carries the result its
